@@ -166,6 +166,21 @@ def dropCR (l : Bytes) : Bytes := if l.getLast? = some CR then l.dropLast else l
 def itemsFrom (data : Bytes) (off : Nat) : List Item :=
   (splitLines (data.drop off)).filterMap fun l => parseLine (dropCR l)
 
+/-- the items whose line (with its LF) lies wholly before byte `k` of `serialise its` -/
+def wholeLines : List Item → Nat → List Item
+  | [], _ => []
+  | it :: r, k => if (fat it).length + 1 ≤ k then it :: wholeLines r (k - ((fat it).length + 1)) else []
+
+/-- the bytes of the line that byte `k` falls into (`[]` when `k` is on a line boundary) -/
+def fragment : List Item → Nat → Bytes
+  | [], _ => []
+  | it :: r, k => if (fat it).length + 1 ≤ k then fragment r (k - ((fat it).length + 1)) else (fat it).take k
+
+/-- the item the fragment belongs to -/
+def tornItem : List Item → Nat → Option Item
+  | [], _ => none
+  | it :: r, k => if (fat it).length + 1 ≤ k then tornItem r (k - ((fat it).length + 1)) else some it
+
 /-! ## L2: the index file (big-endian `int64` pairs) -/
 
 def be8 (n : Nat) : Bytes :=
